@@ -194,7 +194,7 @@ func TestCheck(t *testing.T) {
 	shim = filepath.Join(drv.VerifDir(), "js", "sched_shim.js")
 	nCfg, perBundle, budget := 96, 8, 12
 	if drv.Thorough() {
-		nCfg, perBundle, budget = 3000, 10, 48
+		nCfg, perBundle, budget = 1000, 10, 24
 	}
 	var bundles [][]chanmodel.Config
 	for i := 0; i < nCfg; i += perBundle {
